@@ -254,3 +254,46 @@ v("C08", J22, "                            # state is ready for the reply - now 
   "                            # state is ready for the reply - now send\n                            self.__send_tp_dt(buf['src_address'], buf['dest_address'], buf['session'], package+1, buf['data'][package])\n                            buf['deadline'] = buf['deadline']\n", "break", "FD session written after the DT send (original defect D17)")
 v("C03,C11", J22, "        for _ in range(4):  self._LUT_FD_DLC.append(24)\n        for _ in range(8):  self._LUT_FD_DLC.append(32)", "        for _ in range(8):  self._LUT_FD_DLC.append(24)\n        for _ in range(4):  self._LUT_FD_DLC.append(32)", "break", "LUT rows swapped: lengths 25..28 map to 24 (seeded C03B)")
 v("C11", J22, "        MULTI_PG = 60", "        MULTI_PG = 64", "keep", "unused constant changed alone")
+
+# ---------------------------------------------------------------- added after the third seeded round
+REQ21 = "            for ca in self._cas:\n                if ca.message_acceptable(dest_address):\n                    ca._process_request(mid, dest_address, data, timestamp)\n        elif pgn_value == ParameterGroupNumber.PGN.TP_CM:"
+v("C05,C14", J21, REQ21, REQ21.replace("timestamp)\n", "timestamp)\n                    break\n"), "break", "request dispatch stops at the first accepting CA (seeded C05C)")
+v("C05,C14", J21, REQ21, REQ21.replace("            for ca in self._cas:\n                if ca.message_acceptable(dest_address):\n                    ca._process_request",
+                                          "            for ca in list(self._cas):\n                if not ca.message_acceptable(dest_address):\n                    continue\n                else:\n                    ca._process_request"), "keep", "guard inverted with continue, list copy")
+FIL = "                for ca in self._cas:\n                    if ca.message_acceptable(dest_address):\n                        reject = False\n                        break\n                if reject == True:"
+v("C05,C14", J21, FIL, FIL.replace("                        break\n", "                    break\n"), "break", "filter loop consults only the first CA (seeded C14C)")
+v("C05,C11", J22, FIL, FIL.replace("                        break\n", "                    break\n"), "break", "FD filter loop consults only the first CA (seeded C11D)")
+v("C05,C14", J21, FIL, FIL.replace("                        break\n", ""), "keep", "filter loop without the early exit")
+v("C04", J21, "            for ca in self._cas:\n                ca._process_addressclaim(mid, data, timestamp)", "            for ca in self._cas:\n                ca._process_addressclaim(mid, data, timestamp)\n                break", "break", "only the first CA sees address claims")
+v("C03,C06,C09", J21, "                        # recalc next wakeup\n                        if next_wakeup > buf['deadline']:\n                            next_wakeup = buf['deadline']\n\n                    elif buf['state'] == self.SendBufferState.SENDING_BM:",
+  "                    elif buf['state'] == self.SendBufferState.SENDING_BM:", "break", "J1939-21 burst loop: new deadline never folded into the wake-up")
+v("C03,C09", J22, "                        # recalc next wakeup\n                        if next_wakeup > buf['deadline']:\n                            next_wakeup = buf['deadline']\n\n                    elif buf['state'] == self.SendBufferState.WAITING_EOM_ACK:",
+  "                        # recalc next wakeup\n                        next_wakeup = min(next_wakeup, buf['deadline'])\n\n                    elif buf['state'] == self.SendBufferState.WAITING_EOM_ACK:", "keep", "min() after the FD burst loop")
+v("C01,C03", J21, "                pgn.pdu_specific = 0  # this is 0 for peer-to-peer transfer", "                pgn = ParameterGroupNumber(0, pdu_format, 0)", "break", "data page lost on the RTS/CTS path (seeded C01D)")
+v("C01,C03", J21, "                pgn.pdu_specific = 0  # this is 0 for peer-to-peer transfer", "                pgn = ParameterGroupNumber(data_page, pdu_format, 0)", "keep", "new PGN object with PS 0")
+v("C01,C03", J21, "                pgn.pdu_specific = 0  # this is 0 for peer-to-peer transfer", "                pass", "break", "destination address left in the announced PGN of a PDU1 group")
+GUARD255 = "        if src_address == ParameterGroupNumber.Address.GLOBAL:\n            # 255 is not a valid source address"
+v("C07,C10", J22, GUARD255, GUARD255.replace("Address.GLOBAL", "Address.NULL"), "break", "FD: TP.CM from 255 reaches the own BAM session again (original defect D19)")
+v("C07,C10", J21, GUARD255, GUARD255.replace("src_address == ParameterGroupNumber.Address.GLOBAL", "False"), "break", "J1939-21: guard disabled (original defect D19)")
+v("C07,C10", J21, GUARD255, GUARD255.replace("src_address == ParameterGroupNumber.Address.GLOBAL", "src_address >= 255"), "keep", "guard respelled")
+v("C07", J22, "            # trim data\n            data = data[(4+payload_length):]", "            # trim data\n            data = data[4:]", "keep", "different (wrong for other properties, but progressing) trim")
+v("C07", J22, "            # trim data\n            data = data[(4+payload_length):]", "            # trim data\n            rest = data[(4+payload_length):]", "break", "multi-PG parser never advances")
+v("C08,C10", J22, "                        del self._snd_buffer[bufid]\n                        self.__put_bam_session(buf['session'])", "                        self.__put_bam_session(buf['session'])\n                        del self._snd_buffer[bufid]", "break", "BAM number released before the session is deleted")
+v("C10,C06", J21, "                            # after the last packet: wait for the next CTS / EndOfMsgACK\n                            buf['state'] = self.SendBufferState.WAITING_CTS\n", "                            # after the last packet: wait for the next CTS / EndOfMsgACK\n", "break", "empty burst only re-arms (seeded C10D)")
+v("C12", ECU, "        self._timer_events.append( d )\n        self._job_thread_wakeup()", "        self._job_thread_wakeup()\n        self._timer_events.append( d )", "break", "wake before publish (seeded C12C)")
+v("C16", DM, "            self._msg_subscriber_added = True", "            Dm1._msg_subscriber_added = True", "break", "per-object flag stored on the class (seeded C16D)")
+v("C16", DM, "            self._msg_subscriber_added = True", "            self._msg_subscriber_added = not False", "keep", "respelled constant")
+v("C17", S, "        if byte_count > 7:\n            self._ca.subscribe(self._parse_dm16)", "        if self.object_count > 7:\n            self._ca.subscribe(self._parse_dm16)", "break", "EOM hook keyed on the object count (seeded C17C)")
+v("C17", S, "        if byte_count > 7:\n            self._ca.subscribe(self._parse_dm16)", "        if not byte_count <= 7:\n            self._ca.subscribe(self._parse_dm16)", "keep", "threshold respelled")
+v("C17,C06", J21, "            self._snd_buffer[buffer_hash]['state'] = self.SendBufferState.TRANSMISSION_FINISHED\n            self._snd_buffer[buffer_hash]['deadline'] = time.time()\n            self.__job_thread_wakeup()\n        elif control_byte == self.ConnectionMode.BAM:",
+  "            self._snd_buffer[buffer_hash]['state'] = self.SendBufferState.TRANSMISSION_FINISHED\n            self._snd_buffer[buffer_hash]['deadline'] = time.time() + self.Timeout.Tr\n            self.__job_thread_wakeup()\n        elif control_byte == self.ConnectionMode.BAM:", "break", "finished session lingers (seeded C17D)")
+v("C18", Q, "            if seed == 0xFFFF and length == self.object_count:", "            if seed == 0xFFFF and self.state is QueryState.WAIT_FOR_SEED:", "break", "seed 0xFFFF taken for proceed (seeded C18C)")
+v("C18", Q, "            if seed == 0xFFFF and length == self.object_count:", "            if length == self.object_count and 0xFFFF == seed:", "keep", "conjuncts swapped")
+v("C19", M, "                    if self.server.state.value == DMState.IDLE.value:\n                        self.state = DMState.REQUEST_STARTED", "                    self.state = DMState.REQUEST_STARTED\n                    if self.server.state.value == DMState.IDLE.value:", "break", "facade leaves IDLE although the server is busy (seeded C19D)")
+v("C04", CA, "                # the state is set before the claim goes out: a contender's answer may be\n                # processed before the sending call has returned\n                self._send_address_claimed(self._device_address_announced)",
+  "", "break", "first claim never sent")
+v("C04,C15", CA, "            if self._name.value > contenders_name.value:", "            if self._name.bytes > contenders_name.bytes:", "break", "little-endian list order (seeded C04C)")
+v("C02,C03", J22, "            num_segments = int(message_size / self.DataLength.TP ) + ((message_size % self.DataLength.TP ) != 0)", "            num_segments = -(-message_size // self.DataLength.TP)", "keep", "ceil via negated floor division")
+v("C06,C02", J22, "                logger.info('bam receive buffer already in use 0x%x', buffer_hash )\n                del self._rcv_buffer[buffer_hash]\n                return", "                logger.info('bam receive buffer already in use 0x%x', buffer_hash )\n                return", "break", "old BAM session survives a new announcement (seeded C06D)")
+v("C04", CA, "                self._device_address_announced = self._device_address_preferred\n                if self._device_address_announced > 127",
+  "                self._device_address_announced = self._device_address_preferred\n                self._send_address_claimed(self._device_address_announced)\n                if self._device_address_announced > 127", "break", "first claim sent while still in NONE (original defect D20)")
